@@ -6,6 +6,7 @@ nw=$1; shift
 export GOFLAGS=-mod=mod GOPROXY=off GOSUMDB=off GOTOOLCHAIN=local
 # queries in flight per check, so that nw checks side by side do not starve the solvers (a starved solver times out,
 # and a timeout on a baseline obligation would be counted as a catch / a false alarm)
+export GOVC_CACHE=${GOVC_CACHE:-/var/tmp/govc-cache}
 export GOVC_PAR=${GOVC_PAR:-$(( 16 / nw > 2 ? 16 / nw : 2 ))}
 ALL="C02 C03 C04 C06 C07 C08 C09 C10 C11 C12 C13 C14 C15 C16 C17 C18 C19 C20"
 work() {
